@@ -15,6 +15,11 @@ pub(crate) mod verif_kani_signature {
         let (a, o, ua, uo): (u16, u16, u16, u16) = (kani::any(), kani::any(), kani::any(), kani::any());
         Signature::new(a as usize, o as usize).with_under(ua as usize, uo as usize)
     }
+    impl kani::Arbitrary for Signature {
+        fn any() -> Self {
+            any_sig()
+        }
+    }
     /// Precondition of compose, from the constructors' `as u16` truncation:
     /// the composed counts must be representable.
     pub fn compose_pre(f: Signature, g: Signature) -> bool {
